@@ -1,5 +1,242 @@
-(* C08 placeholder while the correspondence is being established. *)
-From Coq Require Import List NArith.
-From Mant Require Import Prim.Der.
-Example C08_placeholder : der_len 5 = (5 :: nil)%N.
-Proof. reflexivity. Qed.
+(* C08 — NTLMSSP and SPNEGO tokens are structurally exact in both directions.
+   Statements only; proofs are in Proofs/C08*.v.  Models: Model/NtlmSsp.v, Model/Spnego.v,
+   Model/SpnegoAuth.v (Go code), Model/C08Asn1.v, Model/C08Text.v (Go standard library);
+   specifications: Spec/C08.v (MS-NLMP, RFC 2781, RFC 3629), Prim/Der.v (X.690). *)
+From Coq Require Import List NArith ZArith Lia.
+From Mant Require Import Prim.R Prim.Bytes Prim.Der Spec.C08 Model.C08Text Model.C08Asn1 Model.Spnego
+  Model.NtlmSsp Model.SpnegoAuth
+  Proofs.C08Der Proofs.C08TextLemmas Proofs.C08Spnego Proofs.C08Ntlm Proofs.C08Challenge Proofs.C08Total.
+Import ListNotations.
+Open Scope N_scope.
+
+(* ------------------------------------------------------------------------------------------ *)
+(* NEGOTIATE (MS-NLMP 2.2.1.1).  For ALL domain / workstation strings (any bytes: empty, ASCII,
+   non-ASCII, invalid UTF-8) in the Unicode character set, and all ASCII strings in the OEM
+   character set, every message CreateNegotiateMessage builds is valid: signature, MessageType 1,
+   both (Len, MaxLen, BufferOffset) descriptors designate exactly the encoded name (Len = MaxLen,
+   in bounds, behind the 40-byte header, disjoint), the character-set and *_SUPPLIED flags agree
+   with the content.  The text carried is the string's code points as Go reads them
+   ([go_runes]; upper-cased in OEM mode), encoded in UTF-16LE (RFC 2781) resp. OEM. *)
+Theorem C08_negotiate_wf : forall domain ws unicode msg,
+  (unicode = false -> ascii domain /\ ascii ws) ->
+  create_negotiate domain ws unicode = Ok msg ->
+  negotiate_wf msg (bool_charset unicode)
+    (go_runes (negotiate_text unicode domain)) (go_runes (negotiate_text unicode ws)).
+Proof. exact negotiate_wf_holds. Qed.
+Print Assumptions C08_negotiate_wf.
+
+(* A message is built exactly when both encoded names fit their 16-bit length field (since the
+   fix: an error otherwise, never a truncated descriptor, never a panic). *)
+Theorem C08_negotiate_outcome : forall domain ws unicode,
+  let db := negotiate_name unicode domain in
+  let wb := negotiate_name unicode ws in
+  (lenN db <= 65535 /\ lenN wb <= 65535 -> exists msg, create_negotiate domain ws unicode = Ok msg) /\
+  (~ (lenN db <= 65535 /\ lenN wb <= 65535) -> create_negotiate domain ws unicode = Err).
+Proof. exact create_negotiate_outcome. Qed.
+Print Assumptions C08_negotiate_outcome.
+
+(* Known finding C08/oem-non-ascii-name: over non-ASCII names the OEM statement is false
+   (the code writes UTF-8 bytes, which no OEM code page produces).  Witness: domain "é". *)
+Theorem C08_negotiate_oem_non_ascii_refuted :
+  ~ (forall domain ws msg, create_negotiate domain ws false = Ok msg ->
+       negotiate_wf msg Oem (go_runes (negotiate_text false domain)) (go_runes (negotiate_text false ws))).
+Proof. exact negotiate_oem_non_ascii_refuted. Qed.
+Print Assumptions C08_negotiate_oem_non_ascii_refuted.
+
+(* Known finding C08/negotiate/names-not-oem: MS-NLMP 2.2.1.1 read strictly wants OEM names in
+   every NEGOTIATE_MESSAGE; the Unicode mode of the builder refutes that.  Witness: domain "a". *)
+Theorem C08_negotiate_strict_oem_refuted :
+  ~ (forall domain ws msg, ascii domain -> ascii ws -> create_negotiate domain ws true = Ok msg ->
+       negotiate_wf msg Oem (go_runes domain) (go_runes ws)).
+Proof. exact negotiate_unicode_strict_oem_refuted. Qed.
+Print Assumptions C08_negotiate_strict_oem_refuted.
+
+(* ------------------------------------------------------------------------------------------ *)
+(* AUTHENTICATE (MS-NLMP 2.2.1.3).  For ALL 32-bit flag words (every combination of UNICODE, OEM,
+   VERSION, EXTENDED_SESSIONSECURITY, ...), ALL LM / NT response byte strings (whatever C02
+   computes), ALL user / domain / workstation strings in Unicode and all ASCII ones in OEM: the
+   six descriptors designate exactly LmChallengeResponse, NtChallengeResponse, DomainName
+   (upper-cased), UserName, Workstation (upper-cased), EncryptedRandomSessionKey (empty), behind
+   the 88-byte header, in bounds, pairwise disjoint, and together with the header they are the
+   whole message; NegotiateFlags echoes the flags; Version is zero when not negotiated. *)
+Theorem C08_authenticate_wf : forall flags lm nt user domain ws msg,
+  flags < 4294967296 ->
+  (N.testbit flags 0 = false -> N.testbit flags 1 = true /\ ascii user /\ ascii domain /\ ascii ws) ->
+  create_authenticate flags lm nt user domain ws = Ok msg ->
+  authenticate_wf msg (flags_charset flags) flags lm nt
+    (go_runes (go_to_upper domain)) (go_runes user) (go_runes (go_to_upper ws)) [].
+Proof. exact authenticate_wf_holds. Qed.
+Print Assumptions C08_authenticate_wf.
+
+Theorem C08_authenticate_outcome : forall flags lm nt user domain ws,
+  let '(db, ub, wb) := authenticate_names flags user domain ws in
+  (Forall (fun f => lenN f <= 65535) [lm; nt; db; ub; wb] ->
+     exists msg, create_authenticate flags lm nt user domain ws = Ok msg) /\
+  (~ Forall (fun f => lenN f <= 65535) [lm; nt; db; ub; wb] ->
+     create_authenticate flags lm nt user domain ws = Err).
+Proof. exact create_authenticate_outcome. Qed.
+Print Assumptions C08_authenticate_outcome.
+
+Theorem C08_authenticate_oem_non_ascii_refuted :
+  ~ (forall flags lm nt user domain ws msg, flags < 4294967296 ->
+       N.testbit flags 0 = false -> N.testbit flags 1 = true ->
+       create_authenticate flags lm nt user domain ws = Ok msg ->
+       authenticate_wf msg Oem flags lm nt (go_runes (go_to_upper domain)) (go_runes user) (go_runes (go_to_upper ws)) []).
+Proof. exact authenticate_oem_non_ascii_refuted. Qed.
+Print Assumptions C08_authenticate_oem_non_ascii_refuted.
+
+(* The text of a Go string: for every sequence of Unicode scalar values, reading its RFC 3629
+   encoding gives the sequence back, so on valid UTF-8 "the runes Go reads" are the characters;
+   and EncodeUTF16LE of ANY Go string is the RFC 2781 UTF-16LE encoding of its runes. *)
+Theorem C08_utf8_text : forall text, Forall is_scalar text -> go_runes (utf8 text) = text.
+Proof. exact go_runes_utf8. Qed.
+Print Assumptions C08_utf8_text.
+
+Theorem C08_utf16le : forall s, go_utf16le s = utf16le (go_runes s).
+Proof. exact go_utf16le_spec. Qed.
+Print Assumptions C08_utf16le.
+
+(* ------------------------------------------------------------------------------------------ *)
+(* CHALLENGE (MS-NLMP 2.2.1.2).  Every well-formed CHALLENGE_MESSAGE — any bytes with the
+   signature, MessageType 2, at least the 56-byte header, and both descriptors in bounds; payload
+   in any order, with any padding or trailing bytes — parses to exactly the flags, server
+   challenge, target name, target information and version it carries. *)
+Theorem C08_challenge_exact : forall data, challenge_wf data ->
+  exists c, parse_challenge data = Ok c /\
+    let f := challenge_carried data in
+    ch_flags c = cf_flags f /\ ch_server_challenge c = cf_server_challenge f /\
+    ch_target_name c = cf_target_name f /\ ch_target_info c = cf_target_info f /\
+    version_marshal (ch_version c) = cf_version f.
+Proof. exact challenge_exact. Qed.
+Print Assumptions C08_challenge_exact.
+
+(* The sender side: the canonical layout of any fields is well formed and carries them. *)
+Theorem C08_challenge_encode : forall flags sc tn ti ver,
+  flags < 4294967296 -> lenN sc = 8 -> lenN ver = 8 -> lenN tn < 65536 -> lenN ti < 65536 ->
+  wf_bytes sc -> wf_bytes ver -> wf_bytes tn -> wf_bytes ti ->
+  let data := challenge_encode flags sc tn ti ver in
+  challenge_wf data /\
+  challenge_carried data =
+    {| cf_flags := flags; cf_server_challenge := sc; cf_target_name := tn; cf_target_info := ti;
+       cf_version := if N.testbit flags bit_version then ver else [0; 0; 0; 0; 0; 0; 0; 0] |}.
+Proof. exact challenge_encode_spec. Qed.
+Print Assumptions C08_challenge_encode.
+
+(* All AV-pair lists (any ids 1..65535, repeated or not, any values up to 65535 bytes, any
+   bytes after the terminator): the parsed map gives every AvId the last value written. *)
+Theorem C08_target_info : forall pairs rest, Forall av_ok pairs ->
+  exists m, parse_target_info (av_encode pairs ++ rest) = Ok m /\ forall id, av_get m id = av_value pairs id.
+Proof. exact target_info_exact. Qed.
+Print Assumptions C08_target_info.
+
+(* ------------------------------------------------------------------------------------------ *)
+(* X.690 definite lengths: the decoder inverts the DER encoder for EVERY length (short form,
+   1, 2, 3, ... length octets uniformly; induction on base-256 digits), and the hand-written
+   GSS-API header of spnego.go is exactly that encoding for every Go int. *)
+Theorem C08_der_len : forall n rest, n < 256 ^ 126 -> decode_len (der_len n ++ rest) = Some (n, rest).
+Proof. exact decode_der_len. Qed.
+Print Assumptions C08_der_len.
+
+Theorem C08_gss_header_der : forall n, n < 2 ^ 63 -> gss_header_len n = der_len n.
+Proof. exact gss_header_len_der. Qed.
+Print Assumptions C08_gss_header_der.
+
+(* SPNEGO round trip: for EVERY token t (empty included since the fix; any length that Go's asn1
+   can describe, i.e. below 2 GiB), wrapping t in a NegTokenInit yields the DER framing
+   [APPLICATION 0] { spnego OID, body } and extracting gives back exactly t. *)
+Theorem C08_spnego_roundtrip : forall t, lenN t + 64 < 2 ^ 31 ->
+  exists w, create_neg_token_init (Some t) = Ok w /\ extract_ntlm_token w = Ok t.
+Proof. exact extract_wrap_init. Qed.
+Print Assumptions C08_spnego_roundtrip.
+
+Theorem C08_spnego_init_shape : forall t, lenN t + 64 < 2 ^ 31 ->
+  create_neg_token_init (Some t) = Ok (tlv 96 (spnego_oid_der ++ init_body t)).
+Proof. exact create_init_shape. Qed.
+Print Assumptions C08_spnego_init_shape.
+
+(* NegTokenResp likewise, for every NegState of RFC 4178 and every mechanism whose identifier
+   round-trips through the OID codec (instances below): extraction returns t and
+   ParseNegTokenResp returns exactly (state, mechanism, t, no MIC). *)
+Theorem C08_spnego_resp_roundtrip : forall state mech oc t,
+  neg_state state -> mech_coded mech oc -> lenN t + 2048 < 2 ^ 31 ->
+  exists w, create_neg_token_resp state mech (Some t) = Ok w /\ extract_ntlm_token w = Ok t /\
+            parse_neg_token_resp w = Ok {| ntr_state := state; ntr_mech := mech; ntr_token := Some t; ntr_mic := None |}.
+Proof. exact extract_wrap_resp. Qed.
+Print Assumptions C08_spnego_resp_roundtrip.
+
+Theorem C08_spnego_absent : exists w, create_neg_token_init None = Ok w /\ extract_ntlm_token w = Err.
+Proof. exact extract_absent_init. Qed.
+
+(* ------------------------------------------------------------------------------------------ *)
+(* Totality of every decoding entry point (reused by C07): no input panics. *)
+Theorem C08_total_extract_ntlm_token : forall tok, extract_ntlm_token tok <> Panic.
+Proof. exact extract_ntlm_token_total. Qed.
+Print Assumptions C08_total_extract_ntlm_token.
+Theorem C08_total_parse_neg_token_resp : forall tok, parse_neg_token_resp tok <> Panic.
+Proof. exact parse_neg_token_resp_total. Qed.
+Print Assumptions C08_total_parse_neg_token_resp.
+Theorem C08_total_parse_challenge : forall data, parse_challenge data <> Panic.
+Proof. exact parse_challenge_total. Qed.
+Print Assumptions C08_total_parse_challenge.
+Theorem C08_total_parse_target_info : forall ti, parse_target_info ti <> Panic.
+Proof. exact parse_target_info_total. Qed.
+Print Assumptions C08_total_parse_target_info.
+Theorem C08_total_version_unmarshal : forall data, version_unmarshal data <> Panic.
+Proof. exact version_unmarshal_total. Qed.
+Print Assumptions C08_total_version_unmarshal.
+Theorem C08_total_process_challenge_token : forall lm_of nt_of tok user domain ws,
+  process_challenge_token lm_of nt_of tok user domain ws <> Panic.
+Proof. exact process_challenge_token_total. Qed.
+Print Assumptions C08_total_process_challenge_token.
+
+(* ------------------------------------------------------------------------------------------ *)
+(* Non-vacuity: the hypotheses are satisfiable and the statements compute on concrete inputs. *)
+Example C08_ex_mechs : mech_coded [] None /\ mech_coded ntlm_oid (Some ntlm_oid_content)
+  /\ mech_coded kerberos_oid (Some [42; 134; 72; 134; 247; 18; 1; 2; 2]).
+Proof. exact (conj mech_coded_nil (conj mech_coded_ntlm mech_coded_kerberos)). Qed.
+
+Example C08_ex_negotiate :
+  exists msg, create_negotiate [99; 111; 114; 112] [119; 115; 49] false = Ok msg /\ lenN msg = 47
+    /\ sub msg 40 7 = [67; 79; 82; 80; 87; 83; 49].       (* "CORP" "WS1" *)
+Proof. eexists. repeat split; vm_compute; reflexivity. Qed.
+
+Example C08_ex_authenticate :                      (* Unicode | VERSION, user "é" (UTF-8 c3 a9) *)
+  exists msg, create_authenticate 33554433 (repeatN 7 24) (repeatN 9 24) [195; 169] [100] [119] = Ok msg
+    /\ sub msg 136 6 = [68; 0; 233; 0; 87; 0].             (* "D" "é" "W" in UTF-16LE *)
+Proof. eexists. split; vm_compute; reflexivity. Qed.
+
+Example C08_ex_challenge :
+  let data := challenge_encode 33554437 [1; 2; 3; 4; 5; 6; 7; 8] [83; 0] (av_encode [(2, [68; 0]); (2, [69; 0])])
+                [6; 1; 177; 29; 0; 0; 0; 15] in
+  challenge_wf data /\
+  exists c, parse_challenge data = Ok c /\ ch_target_name c = [83; 0] /\ ch_flags c = 33554437 /\
+    exists m, parse_target_info (ch_target_info c) = Ok m /\ av_get m 2 = Some [69; 0].
+Proof.
+  cbn zeta. split.
+  - apply challenge_encode_spec; try (vm_compute; reflexivity); try (apply wf_bytesb_spec; reflexivity); lia.
+  - eexists. split; [vm_compute; reflexivity|]. split; [reflexivity|]. split; [reflexivity|].
+    eexists. split; vm_compute; reflexivity.
+Qed.
+
+Example C08_ex_av_ok : Forall av_ok [(2, [68; 0]); (2, [69; 0]); (7, [1; 2; 3; 4; 5; 6; 7; 8])].
+Proof. repeat constructor. Qed.
+
+Example C08_ex_roundtrip_200 :                      (* a long-form length: 200-byte token *)
+  exists w, create_neg_token_init (Some (repeatN 5 200)) = Ok w /\ extract_ntlm_token w = Ok (repeatN 5 200)
+    /\ firstn 3 w = [96; 129; 236].
+Proof. eexists. repeat split; vm_compute; reflexivity. Qed.
+
+Example C08_ex_empty_token :
+  exists w, create_neg_token_init (Some []) = Ok w /\ extract_ntlm_token w = Ok [].
+Proof. eexists. split; vm_compute; reflexivity. Qed.
+
+Example C08_ex_header_skip : extract_ntlm_token [96; 255] = Err /\ parse_neg_token_resp [96; 129] = Err.
+Proof. split; vm_compute; reflexivity. Qed.
+
+Example C08_ex_challenge_wrap :                     (* TargetNameBufferOffset 0xFFFFFFF0, Len 0x10 *)
+  exists c, parse_challenge ([78; 84; 76; 77; 83; 83; 80; 0; 2; 0; 0; 0; 16; 0; 16; 0; 240; 255; 255; 255]
+                             ++ repeatN 0 36) = Ok c /\ ch_target_name c = [].
+Proof. eexists. split; vm_compute; reflexivity. Qed.
+
+Example C08_ex_der_len : der_len 127 = [127] /\ der_len 128 = [129; 128] /\ der_len 65536 = [131; 1; 0; 0].
+Proof. repeat split; vm_compute; reflexivity. Qed.
